@@ -171,7 +171,7 @@ def run(chk):
     dots = [e for e in r.events("lib-call") if e.name in ("numpy.dot", "numpy.matmul")]
     if len(dots) == 1:
         amp = dots[0].args[0]
-        full = LinExpr("int[div[pow[2,int[ceil[log2[n]]]],2]]")
+        full = LinExpr("int[div[pow[2,ceil[log2[n]]],2]]")
         sl = [e for e in r.events("subscript", r.fi.qualname) if "fft:fft" in e.base.tags and e.index.kind == K_SLICE]
         oksl = len(sl) == 1 and sl[0].index.items[0] is not None and sl[0].index.items[0].has_const() and \
             sl[0].index.items[0].const == 1 and sl[0].index.items[1] is None
